@@ -44,6 +44,9 @@ def _kill_children(*_a):
 def _sub(cmd, wall, tag, env=None):
     e = dict(os.environ)
     e["PYTHONPATH"] = ROOT
+    if e.get("VERIF_REPO_SRC"):
+        # run against another checkout of soundevent (seeded-change experiments); default is /repo/src
+        e["PYTHONPATH"] = ROOT + os.pathsep + e["VERIF_REPO_SRC"]
     e["PYTHONDONTWRITEBYTECODE"] = "1"
     e.pop("VERIF_MODE", None)
     if env:
